@@ -228,7 +228,8 @@ pub fn enc_case(src: &mut Src, ctx: &mut Ctx) -> Result<(), Fail> {
             }
         }
     }
-    let mut model = RefReasm::new(smoltcp::config::REASSEMBLY_BUFFER_COUNT, smoltcp::config::ASSEMBLER_MAX_SEGMENT_COUNT, 60_000);
+    let reasm_timeout_ms = c.w.s[1].node.iface.reassembly_timeout().total_millis() as i64;
+    let mut model = RefReasm::new(smoltcp::config::REASSEMBLY_BUFFER_COUNT, smoltcp::config::ASSEMBLER_MAX_SEGMENT_COUNT, reasm_timeout_ms);
     let key: FragKey = (c.x_ll, c.mac_dst, c.dgram.len(), 0);
     let mut complete = n == 1;
     let one_by_one = src.bool();
